@@ -3,7 +3,8 @@
 # 1. confirms the seeded change in a fresh scratch worktree (suite passes, demo fails with / passes without);
 # 2. applies it to /repo, runs ./check for the given properties, reverts /repo straight afterwards.
 set -u
-D=$1; shift
+D=$(realpath $1); shift
+V=$(cd "$(dirname "$0")/.." && pwd)
 W=/var/tmp/hv_mutwt_$$
 git -C /repo worktree add --detach $W HEAD -q || exit 2
 trap 'git -C /repo checkout -q -- . ; git -C /repo worktree remove --force $W 2>/dev/null' EXIT
@@ -19,7 +20,7 @@ git -C /repo status --short | grep -q . && { echo "/repo is dirty, refusing"; ex
 git -C /repo apply $D/patch.diff || exit 2
 for p in "$@"; do
   echo "== ./check $p"
-  ( cd /verif && timeout 3000 ./check $p 2>&1 | grep -v "^KNOWN-FINDING" | head -6 | cut -c1-400 );
+  ( cd $V && timeout 3000 ./check $p 2>&1 | grep -v "^KNOWN-FINDING" | head -6 | cut -c1-400 );
 done
 git -C /repo checkout -q -- .
 git -C /repo status --short
